@@ -53,17 +53,17 @@ type Client struct {
 	// Extra query parameters (e.g. b64=1).
 	http *http.Client
 
-	mu      sync.Mutex
-	ws      *websocket.Conn
-	wsWrite sync.Mutex
-	rxSeq   int64
-	rx      []Rx
-	rxCond  *sync.Cond
-	closed  bool
+	mu       sync.Mutex
+	ws       *websocket.Conn
+	wsWrite  sync.Mutex
+	rxSeq    int64
+	rx       []Rx
+	rxCond   *sync.Cond
+	closed   bool
 	closeWhy string
 	pollStop chan struct{}
 	pollDone chan struct{}
-	Pings   atomic.Int64
+	Pings    atomic.Int64
 }
 
 func newHTTPClient() *http.Client {
